@@ -4,10 +4,20 @@
   c07.run    <f s | r r0> <ops: string of n/r, `-` = none>  =>  <count> <result>*
   c07.hist   <start> <goroutines>  =>  <count> (<g> <n|r> <before> <after> <result>)*
   c07.facts  sequencer.go  =>  <6 bools> <maxInitialRandomSequenceNumber>
+
+  c06.hist   <mtu> <pt> <ssrc> <ts0> <seqStart> <payloader name> <n> op*  =>  <n> opobs*
+     op    = P <payload> <samples> <now:int64 unix ns> <k> <fragment>*     (fragments = what the real
+                                                    payloader returned at this call; the model's `pay`)
+           | S <skipped> | G <count> | E <id>
+     opobs = P (none | some <budget> <payloadSame>) <k> pkt* | S | G <k> pkt* | E
+     pkt   = <version> <P> <X> <M> <pt> <seq> <ts> <ssrc> <#csrc> <k> (<id> <bytes>)* <payload>
+             <PaddingSize> <MarshalSize> <res bytes: Marshal> <roundtrip>
 -/
 import Driver.Common
 import Rtp.Model.Sequencer
 import Rtp.Pred.C07
+import Rtp.Model.Packetizer
+import Rtp.Pred.C06
 namespace Rtp.Kinds.Pktz
 open Rtp Rtp.Proto Rtp.Model Rtp.Spec.Counter
 
@@ -73,6 +83,54 @@ def c07facts : Handler :=
                 maxInitialRandom := SeqState.maxInitialRandom })
     (fun _ o => Pred.C07.factsOk o)
 
+/-! ### C06 -/
+
+def rdPkt : Rd PktObs := do
+  let v ← Rd.nat; let p ← Rd.bool; let x ← Rd.bool; let m ← Rd.bool
+  let pt ← Rd.u8; let seq ← Rd.u16; let ts ← Rd.u32; let ssrc ← Rd.u32; let cc ← Rd.nat
+  let exts ← Rd.list (do let id ← Rd.u8; let b ← Rd.bytes; pure (id, b))
+  let payload ← Rd.bytes; let ps ← Rd.nat; let ms ← Rd.nat
+  let mar ← Rd.resC Rd.bytes; let rt ← Rd.bool
+  pure { version := v, padding := p, extension := x, marker := m, pt := pt, seq := seq, ts := ts,
+         ssrc := ssrc, csrcCount := cc, exts := exts, payload := payload, paddingSize := ps,
+         marshalSize := ms, marshal := mar, roundtrip := rt }
+
+def rdPkOp : Rd PkOp := do
+  let t ← Rd.tok
+  match t with
+  | "P" => do
+    let payload ← Rd.bytes; let samples ← Rd.u32; let now ← Rd.i64
+    let frags ← Rd.list Rd.bytes
+    pure (.packetize (fun _ _ => frags) payload samples now)
+  | "S" => do let n ← Rd.u32; pure (.skip n)
+  | "G" => do let n ← Rd.u32; pure (.padding n)
+  | "E" => do let v ← Rd.int; pure (.enableAbs v)
+  | _ => Rd.fail
+
+def rdPkOpObs : Rd PkOpObs := do
+  let t ← Rd.tok
+  match t with
+  | "P" => do
+    let c ← Rd.opt (do let b ← Rd.u16; let s ← Rd.bool; pure (b, s))
+    let pkts ← Rd.list rdPkt
+    pure (.packetize c pkts)
+  | "S" => pure .skip
+  | "G" => do let pkts ← Rd.list rdPkt; pure (.padding pkts)
+  | "E" => pure .enableAbs
+  | _ => Rd.fail
+
+def rdPkInput : Rd (Packetizer × List PkOp) := do
+  let mtu ← Rd.u16; let pt ← Rd.u8; let ssrc ← Rd.u32; let ts ← Rd.u32; let s ← Rd.u16
+  let _name ← Rd.tok
+  let ops ← Rd.list rdPkOp
+  pure ({ mtu := mtu, pt := pt, ssrc := ssrc, ts := ts, seq := SeqState.newFixed s, absId := 0 }, ops)
+
+def c06hist : Handler :=
+  mkHandler rdPkInput (Rd.list rdPkOpObs)
+    (fun (cfg, ops) => cfg.run ops)
+    (fun (cfg, ops) o => Pred.C06.histOk cfg ops o)
+    (fun (cfg, ops) => Pred.C06.wf cfg ops)
+
 def handlers : List (String × Handler) :=
-  [("c07.run", c07run), ("c07.hist", c07hist), ("c07.facts", c07facts)]
+  [("c07.run", c07run), ("c07.hist", c07hist), ("c07.facts", c07facts), ("c06.hist", c06hist)]
 end Rtp.Kinds.Pktz
